@@ -29,6 +29,7 @@ ImplF4  == [ImplDesigned EXCEPT !.periodicAckSwallow = TRUE]
 ImplF18 == [ImplDesigned EXCEPT !.periodicBumpSwallow = TRUE]
 ImplF19 == [ImplDesigned EXCEPT !.ackDiscarded = TRUE]
 ImplLeak == [ImplDesigned EXCEPT !.seedLeakHidden = TRUE]
+ImplF21 == [ImplDesigned EXCEPT !.lateJoinerMissesEmpty = TRUE]
 ImplF9  == [ImplDesigned EXCEPT !.removalOverwrite = TRUE]
 ImplF11 == [ImplDesigned EXCEPT !.emptyMutateWithGraphs = TRUE]
 ImplF14 == [ImplDesigned EXCEPT !.whiteReAddForgetsLost = TRUE]
